@@ -459,6 +459,8 @@ def _true_to_256(desc: str) -> str | None:
         c256 = _parse_color_256("#" + "".join(format(int(x, 16) // 16, "x") for x in (desc[1:3], desc[3:5], desc[5:7])))
     except ValueError:
         return None
+    if c256 is None:
+        return None
     return _color_desc_256(c256)
 
 
